@@ -347,4 +347,53 @@ def deposited (s : State) (r : Addr) : List (Addr × Nat) :=
   (sortDedup (s.required.map Prod.fst)).filterMap fun c =>
     if s.ledger r c = 0 then none else some (c, s.ledger r c)
 
+
+/-! ## extended operations (round 3 follow-up, add-only)
+
+Four message kinds have an effect on the aspect state that no `Op` can express: `Shuffle` permutes the ORDER of the
+mintable ids, a holder may transfer / burn a token in the minter's OWN (target) collection, and governance may change
+the two factory parameters mirrored here. They are separate constructors of `OpX` (so that everything stated about
+`Op` / `step` / `run` stays literally as it was); `stepX (.core op) = step s op` by definition. None of them touches
+the deposit ledger, the requirement vector, the start time, the clock, the per-address limit, the per-recipient
+counters or the source collections (`Props/C17.lean`: `stepX_frame`). A new source CONTRACT appearing (`colls`) is still
+not expressible. -/
+
+inductive OpX where
+  | core (op : Op)
+  /-- `Shuffle {}`: `w` = the implementation's outcome (fee, sold-out: C01/C06), `perm` = the mintable ids in position
+  order afterwards — a checked witness: it must be a permutation of the current ids -/
+  | shuffle (w : Bool) (perm : List Nat)
+  /-- `TransferNft` on the minter's own collection by the token's owner (`w`: e.g. sg721-nt refuses) -/
+  | tgtTransfer (caller : Addr) (id : Nat) (to : Addr) (w : Bool)
+  /-- `Burn` on the minter's own collection by the token's owner -/
+  | tgtBurn (caller : Addr) (id : Nat) (w : Bool)
+  /-- factory sudo `UpdateParams`: new `max_per_address_limit` and airdrop price -/
+  | govern (maxPer airdrop : Nat) (w : Bool)
+
+def stepX (s : State) : OpX → Except Err State
+  | .core op => step s op
+  | .shuffle w perm =>
+    if w = false then .error .other
+    else if perm.isPerm s.mintable = true then .ok { s with mintable := perm }
+    else .error .invalid
+  | .tgtTransfer caller id to w =>
+    if w = false then .error .other
+    else if s.tgtOwner id = some caller then .ok { s with tgtOwner := upd1 s.tgtOwner id (some to) }
+    else .error .unauthorized
+  | .tgtBurn caller id w =>
+    if w = false then .error .other
+    else if s.tgtOwner id = some caller then
+      .ok { s with tgtOwner := upd1 s.tgtOwner id none, tgtNum := s.tgtNum - 1 }
+    else .error .unauthorized
+  | .govern maxPer airdrop w =>
+    if w = false then .error .other
+    else .ok { s with maxPerAddressLimit := maxPer, airdropPrice := airdrop }
+
+def stepX' (s : State) (op : OpX) : State :=
+  match stepX s op with
+  | .ok s' => s'
+  | .error _ => s
+
+def runX (s : State) (ops : List OpX) : State := ops.foldl stepX' s
+
 end LP.TM
